@@ -6,11 +6,11 @@ import nvlib, gen_listing as GL, gen_src as S, lst_parse as LP
 ID = "C18"
 LEAN_MODULES = ["NakenVerif.Props.C18"]
 THEOREMS = ["NakenVerif.Listing." + t for t in (
-    "dump_shows_exactly_the_data", "dump_true", "dump_complete_once", "dump_never_hangs_partial",
-    "walk_lines_tile", "line_is_disasm_of_shown_bytes", "listing_bytes_true", "listing_complete_once",
-    "listing_symbols_match", "listing_low_high_match", "msp430_line_cells_exact", "riscv_line_cells_exact",
-    "msp430_len_local", "riscv_len_local", "overwrite_counterexample", "top_of_memory_counterexample",
-    "cpu_list_units_fit_dump")]
+    "dump_shows_exactly_the_data", "dump_true", "dump_complete_once", "dump_range_finite", "cpu_list_units_fit_dump",
+    "walk_lines_tile", "listing_walk_is_common_walk", "exact_of_walk", "line_is_disasm_of_shown_bytes",
+    "msp430_line_cells_exact", "riscv_line_cells_exact", "msp430_len_local", "msp430_advance_is_count", "riscv_len_local",
+    "listing_bytes_true", "listing_complete_once", "listing_low_high_match", "listing_symbols_match",
+    "overwrite_counterexample", "top_of_memory_counterexample", "include_code_counterexample")]
 RULE = ("programs: one program per case from tools/gen_listing.py (CPU from corpus/statements x shape: plain, instruction after "
         "odd-length data, .repeat of code/data/mixed/with a gap/behind odd data, reservations and alignments, several .org "
         "segments, 64 KiB page boundaries, macro bodies, .include files, data only (both byte orders), data runs that start "
